@@ -29,7 +29,8 @@ Contents
   `shadow_sync_stream`, `shadow_sync_stream_blank`
 * §5 notifications: `cursor_last`, `style_last`, `view_last_flag/int/str`,
   `notifications_last_stream`, `resize_last`, and `no_scrollLines_emitted_partial` (the
-  ScrollLines clause is NOT established: known finding)
+  ScrollLines clause is NOT established in the model: the code calls `ScrollLines` since fix
+  715b710, which is checked on the implementation by the harness monitor `scroll-lines`)
 * §6 non-vacuity examples, and an example showing that `InvAlong` cannot be dropped under the
   span policy with a width-3 character
 
